@@ -94,7 +94,6 @@ def main():
     C.self_test(cross=False)
     rig_p(chk, a.tier, a.seed)
     rig_r(chk, a.tier, a.seed)
-    chk.sample({"datagram_judged": "v3 GET, engine id 17 octets, user 64 octets, auth params at offset 139: HMAC-SHA-96 recomputed == carried"})
     sys.exit(chk.finish())
 
 
